@@ -68,11 +68,11 @@ ENTRIES = []
 
 
 def entry(name, harness, tus, entries, sizes, opts=OPTS, quick_opts=("Os",), real_units=None, config="host",
-          backend="cadical", timeout=600, fsarray=256, online=False, desc="", secret="", public="", cdefs=(), expect_refused=False, control=False):
+          backend="cadical", timeout=600, fsarray=256, online=False, stubs=(), desc="", secret="", public="", cdefs=(), expect_refused=False, control=False):
     """sizes: list of dict(tag=, defs={..}, unwind=, unwindset=[..], tier=)"""
     ENTRIES.append(dict(name=name, harness=harness, tus=list(tus), entries=list(entries), sizes=sizes, opts=opts,
                         quick_opts=quick_opts, real_units=list(real_units if real_units is not None else tus),
-                        config=config, backend=backend, timeout=timeout, fsarray=fsarray, online=online, desc=desc, secret=secret, public=public,
+                        config=config, backend=backend, timeout=timeout, fsarray=fsarray, online=online, stubs=list(stubs), desc=desc, secret=secret, public=public,
                         cdefs=list(cdefs), expect_refused=expect_refused, control=control))
 
 
@@ -241,6 +241,17 @@ entry("ec_prime_i15_drv_mulgen", "C08_ecdrv.c", ECP, ["api_mulgen"],
       [S("p256-x2", 240, FN=2, CURVE=23, XLEN=2, tier="thorough"), S("p384-x2", 240, FN=2, CURVE=24, XLEN=2, tier="thorough")],
       quick_opts=("Os",), online=True, timeout=1200, desc="control structure of ec_prime_i15 api_mulgen over observation-only big-integer stubs",
       secret=ECSTUB, public=ECPUB)
+P256STUB = ["br_ccopy", "p256_double", "p256_add", "mul_f256", "square_f256", "reduce_f256", "reduce_final_f256", "mul20", "square20"]
+for _fn, _nm in ((1, "mul"), (2, "mulgen")):
+    entry("ec_p256_m15_drv_" + _nm, "C08_ecdrv2.c", ["src/ec/ec_p256_m15.c", "src/ec/ec_secp256r1.c"] + ECC, ["api_" + _nm],
+          [S("x2", 300, IMPL=1, FN=_fn, XLEN=2), S("x3", 300, IMPL=1, FN=_fn, XLEN=3, tier="thorough")], quick_opts=("Os",), online=True, timeout=1200, stubs=P256STUB,
+          desc="control structure of ec_p256_m15 api_%s (decode, scalar loop, window look-up, double/add, to-affine, encode) over observation-only field-primitive stubs" % _nm,
+          secret="scalar bytes, point bytes, all limbs produced by the stubbed field primitives",
+          public="xlen, addresses; stubs: " + " ".join(P256STUB))
+entry("ec_c25519_m15_drv_mul", "C08_ecdrv2.c", ["src/ec/ec_c25519_m15.c"] + ECC, ["api_mul"],
+      [S("x2", 300, IMPL=3, FN=1, XLEN=2, tier="thorough")], opts=("Os",), online=True, timeout=1200, stubs=["br_ccopy", "f255_mulgen", "f255_add", "f255_sub", "mul20"],
+      desc="control structure of ec_c25519_m15 api_mul (X25519 ladder, cswap, mul_a24, inversion, encode) over observation-only field-primitive stubs",
+      secret="scalar bytes, u coordinate, all limbs produced by the stubbed field primitives", public="xlen, addresses; stubs: f255_mulgen f255_add f255_sub mul20")
 entry("ec_p256_m15_p256_mul", "C08_ecmul.c", ["src/ec/ec_p256_m15.c"] + ECC, ["p256_mul"],
       [S("x1", 300, XLEN=1, tier="thorough")], opts=("Os",), real_units=["src/ec/ec_secp256r1.c"] + ECC, timeout=900,
       desc="ec_p256_m15 p256_mul (window look-up by CCOPY, Jacobian double/add), 1-byte scalar", secret="scalar, point coordinate limbs", public="xlen, addresses")
@@ -369,7 +380,12 @@ def gen_one(e, opt):
     if mod is None:
         return dict(ok=False, reason=info)
     try:
-        r = ir2c.Translator(mod).translate(e["entries"])
+        r = ir2c.Translator(mod, stubs=e["stubs"]).translate(e["entries"])
+        if e["stubs"]:
+            # twin without stub substitution: this is what the translation validation compares with the real code
+            rfull = ir2c.Translator(mod).translate(e["entries"])
+            with open(os.path.join(GEN, base + "_full.c"), "w") as f:
+                f.write(rfull.c_text)
     except ir2c.Unsupported as ex:
         return dict(ok=False, reason="ir2c refused: %s" % ex)
     except Exception as ex:  # a crash of the translator is a refusal too, never a silent skip
@@ -388,26 +404,43 @@ def size_defs(sz):
 
 
 def tv_one(e, opt, sz, g):
-    """translation validation + observation count for one (entry, opt, size)."""
+    """translation validation + observation count for one (entry, opt, size).
+    Entries with in-TU stubs: the validation runs on the twin translated WITHOUT stub substitution (same IR,
+    same translator; the stubbed file differs only by omitting the bodies of the listed functions), and the
+    observation count comes from a separate native run of the stubbed file."""
     tag = "%s_%s_%s" % (e["name"], opt, sz["tag"])
-    exe = os.path.join(GEN, tag + ".tv")
     objs = []
     for t in e["real_units"]:
         rc, out, o = real_obj(t, e["config"], e["cdefs"])
         if rc != 0:
             return dict(ok=False, reason="TV: gcc failed on real unit %s: %s" % (t, out[-600:]))
         objs.append(o)
-    cmd = ["gcc", "-O1", "-w", "-fno-strict-aliasing", "-DC08_TV=1", "-DNATIVE_REPLAY=1", "-DC08_GEN=\"%s\"" % g["file"], "-I" + GEN, "-I" + HARN,
-           "-I" + os.path.join(REPO, "inc"), "-I" + os.path.join(REPO, "src"), "-I" + REPO] + cfg_defs(e["config"]) + e["cdefs"] + size_defs(sz) + \
-          [os.path.join(HARN, e["harness"])] + objs + ["-o", exe]
-    rc, out = sh(cmd)
-    if rc != 0:
-        return dict(ok=False, reason="TV build failed: " + out[-1500:])
     seed = os.environ.get("VERIF_SEED", "0") or "0"
-    rc, out = sh([exe, str(int(seed) + 1)], timeout=300)
-    m = re.search(r"TV-OK matched=(\d+) skipped=(\d+) outbytes=(\d+) obs_min=(\d+) obs_max=(\d+) div_max=(\d+)", out)
-    if rc != 0 or not m:
-        return dict(ok=False, reason="TV run rc=%d: %s" % (rc, out[-600:]))
+
+    def build_run(exe, gen, extra, objs_):
+        cmd = ["gcc", "-O1", "-w", "-fno-strict-aliasing", "-DC08_TV=1", "-DNATIVE_REPLAY=1", "-DC08_GEN=\"%s\"" % gen, "-I" + GEN, "-I" + HARN,
+               "-I" + os.path.join(REPO, "inc"), "-I" + os.path.join(REPO, "src"), "-I" + REPO] + cfg_defs(e["config"]) + e["cdefs"] + size_defs(sz) + extra + \
+              [os.path.join(HARN, e["harness"])] + objs_ + ["-o", exe]
+        rc, out = sh(cmd)
+        if rc != 0:
+            return None, "TV build failed: " + out[-1500:]
+        rc, out = sh([exe, str(int(seed) + 1)], timeout=300)
+        m = re.search(r"TV-OK matched=(\d+) skipped=(\d+) outbytes=(\d+) obs_min=(\d+) obs_max=(\d+) div_max=(\d+)", out)
+        if rc != 0 or not m:
+            return None, "TV run rc=%d: %s" % (rc, out[-600:])
+        return m, None
+    if e["stubs"]:
+        m, err = build_run(os.path.join(GEN, tag + ".tv"), g["file"][:-2] + "_full.c", ["-DC08_NOSTUB=1"], objs)
+        if m is None:
+            return dict(ok=False, reason=err)
+        m2, err = build_run(os.path.join(GEN, tag + ".cnt"), g["file"], ["-DC08_COUNTONLY=1"], [])
+        if m2 is None:
+            return dict(ok=False, reason="count run: " + err)
+        return dict(ok=True, matched=int(m.group(1)), skipped=int(m.group(2)), outbytes=int(m.group(3)),
+                    obs_min=int(m2.group(4)), obs_max=int(m2.group(5)), div_max=int(m2.group(6)), validated="twin without stub substitution")
+    m, err = build_run(os.path.join(GEN, tag + ".tv"), g["file"], [], objs)
+    if m is None:
+        return dict(ok=False, reason=err)
     return dict(ok=True, matched=int(m.group(1)), skipped=int(m.group(2)), outbytes=int(m.group(3)),
                 obs_min=int(m.group(4)), obs_max=int(m.group(5)), div_max=int(m.group(6)))
 
